@@ -243,3 +243,234 @@ Proof.
       rewrite firstn_all. reflexivity.
     + unfold bump. unf. cbn. rewrite L1, L2. unfold atoms_len, u8_len. lia.
 Qed.
+
+Lemma new_small_number_spec a v : AOK a -> v <= NODE_PTR_IDX_MASK ->
+  new_small_number a v = new_atom a (be_bytes (N.to_nat (len_for_value v)) v).
+Proof.
+  intros [Hw Hc] Hv. destruct (counts_u32 a Hc) as (U1 & _).
+  unfold new_small_number, new_atom. rewrite U1, small_bytes_blen.
+  replace (NODE_PTR_IDX_MASK <? v) with false by lia.
+  destruct (heap_limit a <? u8_len a + ghost_heap a + len_for_value v); [reflexivity|].
+  destruct (check_atom_limit a); [|reflexivity]. cbn [bind].
+  (* the bytes of a small value fit back into the same small value *)
+  assert (F : fits_in_small_atom (be_bytes (N.to_nat (len_for_value v)) v) = Some v).
+  { unfold len_for_value. unf.
+    destruct (v =? 0) eqn:E0. { assert (v = 0) by lia. subst. reflexivity. }
+    destruct (v <? 128) eqn:E1.
+    { change (N.to_nat 1) with 1%nat. rewrite !be_bytes_S. cbn [be_bytes be_bytes_acc app].
+      unfold fits_in_small_atom, be_value. cbn [blen length be_acc N.of_nat Pos.of_succ_nat].
+      assert (v mod 256 = v) by lia. rewrite H.
+      replace ((4 <? 1) || (1 =? 1) && (v =? 0) || (128 <=? v) || (v =? 0) && false || (1 =? 4) && (3 <? v)) with false by lia.
+      f_equal; lia. }
+    destruct (v <? 32768) eqn:E2.
+    { change (N.to_nat 2) with 2%nat. rewrite !be_bytes_S. cbn [be_bytes be_bytes_acc app].
+      unfold fits_in_small_atom, be_value. cbn [blen length be_acc N.of_nat Pos.of_succ_nat Pos.succ].
+      set (x0 := v / 256 mod 256). set (x1 := v mod 256).
+      assert (x0 = v / 256) by (unfold x0; lia).
+      replace ((4 <? 2) || (2 =? 1) && (x0 =? 0) || (128 <=? x0) || (x0 =? 0) && (x1 <? 128) || (2 =? 4) && (3 <? x0)) with false by (unfold x1; lia).
+      f_equal; unfold x1; lia. }
+    destruct (v <? 8388608) eqn:E3.
+    { change (N.to_nat 3) with 3%nat. rewrite !be_bytes_S. cbn [be_bytes be_bytes_acc app].
+      unfold fits_in_small_atom, be_value. cbn [blen length be_acc N.of_nat Pos.of_succ_nat Pos.succ].
+      set (x0 := v / 256 / 256 mod 256). set (x1 := v / 256 mod 256). set (x2 := v mod 256).
+      assert (x0 = v / 256 / 256) by (unfold x0; lia).
+      replace ((4 <? 3) || (3 =? 1) && (x0 =? 0) || (128 <=? x0) || (x0 =? 0) && (x1 <? 128) || (3 =? 4) && (3 <? x0)) with false by (unfold x1; lia).
+      f_equal; unfold x1, x2; lia. }
+    replace (v <? 2147483648) with true by lia.
+    change (N.to_nat 4) with 4%nat. rewrite !be_bytes_S. cbn [be_bytes be_bytes_acc app].
+    unfold fits_in_small_atom, be_value. cbn [blen length be_acc N.of_nat Pos.of_succ_nat Pos.succ].
+    set (x0 := v / 256 / 256 / 256 mod 256). set (x1 := v / 256 / 256 mod 256).
+    set (x2 := v / 256 mod 256). set (x3 := v mod 256).
+    assert (x0 = v / 256 / 256 / 256) by (unfold x0; lia).
+    replace ((4 <? 4) || (4 =? 1) && (x0 =? 0) || (128 <=? x0) || (x0 =? 0) && (x1 <? 128) || (4 =? 4) && (3 <? x0)) with false by (unfold x1; lia).
+    f_equal; unfold x1, x2, x3; lia. }
+  rewrite F. reflexivity.
+Qed.
+
+(* ------------------------------------------------------------------ pairs and ghost counters *)
+
+Lemma new_pair_spec a l r : AOK a -> vnode (hp a) l -> vnode (hp a) r ->
+  match new_pair a l r with
+  | Err e => e = TooManyPairs /\ pair_count a = MAX_NUM_PAIRS
+  | Ok (a', n) => pair_count a < MAX_NUM_PAIRS /\ AOK a' /\ ext (hp a) (hp a') /\ vnode (hp a') n /\
+                  n = PairP (pairs_len a) /\ nth_N (pairs (hp a')) (pairs_len a) = Some (l, r) /\
+                  bump a a' 0 1 0
+  end.
+Proof.
+  intros [Hw Hc] Hl Hr. unfold new_pair.
+  replace (MAX_NUM_PAIRS <? ghost_pairs a) with false by (unf; lia).
+  destruct (MAX_NUM_PAIRS - ghost_pairs a <=? pairs_len a) eqn:E.
+  { split; [reflexivity|]. unf. lia. }
+  assert (L : nlen (pairs (hp a) ++ [(l, r)]) = pairs_len a + 1) by (rewrite nlen_app; reflexivity).
+  refine (conj _ (conj _ (conj (ext_push_pair _ _ _) (conj _ (conj eq_refl (conj _ _)))))).
+  - unf. lia.
+  - split; [apply WF_push_pair; assumption|]. unf. cbn. rewrite L. unfold pairs_len. lia.
+  - cbn. rewrite L. lia.
+  - cbn. apply nth_N_app_end.
+  - unfold bump. unf. cbn. rewrite L. unfold pairs_len. lia.
+Qed.
+
+Lemma add_ghost_atom_spec a n : AOK a ->
+  match add_ghost_atom a n with
+  | Err e => e = TooManyAtoms /\ MAX_NUM_ATOMS < atom_count a + n
+  | Ok a' => atom_count a + n <= MAX_NUM_ATOMS /\ AOK a' /\ hp a' = hp a /\ bump a a' n 0 0
+  end.
+Proof.
+  intros [Hw Hc]. unfold add_ghost_atom.
+  replace (MAX_NUM_ATOMS <? ghost_atoms a + atoms_len a) with false by (unf; lia).
+  destruct (MAX_NUM_ATOMS - ghost_atoms a - atoms_len a <? n) eqn:E.
+  { split; [reflexivity|]. unf. lia. }
+  refine (conj _ (conj _ (conj eq_refl _))).
+  - unf. lia.
+  - split; [exact Hw|]. unf. cbn. lia.
+  - unfold bump. unf. cbn. lia.
+Qed.
+
+Lemma add_ghost_pair_spec a n : AOK a ->
+  match add_ghost_pair a n with
+  | Err e => e = TooManyPairs /\ MAX_NUM_PAIRS < pair_count a + n
+  | Ok a' => pair_count a + n <= MAX_NUM_PAIRS /\ AOK a' /\ hp a' = hp a /\ bump a a' 0 n 0
+  end.
+Proof.
+  intros [Hw Hc]. unfold add_ghost_pair.
+  replace (MAX_NUM_PAIRS <? ghost_pairs a + pairs_len a) with false by (unf; lia).
+  destruct (MAX_NUM_PAIRS - ghost_pairs a - pairs_len a <? n) eqn:E.
+  { split; [reflexivity|]. unf. lia. }
+  refine (conj _ (conj _ (conj eq_refl _))).
+  - unf. lia.
+  - split; [exact Hw|]. unf. cbn. lia.
+  - unfold bump. unf. cbn. lia.
+Qed.
+
+Lemma remove_ghost_pair_spec a n : AOK a ->
+  match remove_ghost_pair a n with
+  | Err e => e = Panic 10
+  | Ok a' => AOK a' /\ hp a' = hp a /\ heap_limit a' = heap_limit a /\
+             counts a' = (atom_count a, pair_count a - n, heap_size a) /\ n <= pair_count a
+  end.
+Proof.
+  intros [Hw Hc]. unfold remove_ghost_pair. destruct (ghost_pairs a <? n) eqn:E; [reflexivity|].
+  refine (conj _ (conj eq_refl (conj eq_refl (conj _ _)))).
+  - split; [exact Hw|]. unf. cbn. lia.
+  - unfold counts. unf. cbn. apply f_equal2; [apply f_equal2|]; lia.
+  - unf. lia.
+Qed.
+
+(* ------------------------------------------------------------------ substrings *)
+
+Lemma sub_bytes_slice b s e : s <= e -> e <= blen b -> slice b s e = Some (sub_bytes b s e).
+Proof.
+  intros A B. unfold slice, sub_bytes. replace ((s <=? e) && (e <=? blen b)) with true by lia. reflexivity.
+Qed.
+
+Lemma slice_slice b s e x s2 e2 :
+  slice b s e = Some x -> s2 <= e2 -> e2 <= e - s -> slice b (s + s2) (s + e2) = Some (sub_bytes x s2 e2).
+Proof.
+  intros H A B. destruct (slice_some _ _ _ _ H) as (C & D & ->).
+  unfold slice, sub_bytes. replace ((s + s2 <=? s + e2) && (s + e2 <=? blen b)) with true by lia.
+  f_equal. replace (s + e2 - (s + s2)) with (e2 - s2) by lia.
+  rewrite <- (firstn_skipn (N.to_nat s) b) at 1.
+  assert (Ls : length (firstn (N.to_nat s) b) = N.to_nat s) by (rewrite firstn_length; unfold blen in *; lia).
+  rewrite skipn_app, Ls.
+  replace (N.to_nat (s + s2)) with (N.to_nat s + N.to_nat s2)%nat by lia.
+  rewrite skipn_all2 by lia. cbn [app].
+  replace (N.to_nat s + N.to_nat s2 - N.to_nat s)%nat with (N.to_nat s2) by lia.
+  (* firstn k (skipn j l) vs firstn k (skipn j (firstn m l)) with j + k <= m *)
+  set (l := skipn (N.to_nat s) b).
+  rewrite <- (firstn_skipn (N.to_nat (e - s)) l) at 1.
+  assert (Ll : length (firstn (N.to_nat (e - s)) l) = N.to_nat (e - s)).
+  { rewrite firstn_length. unfold l. rewrite skipn_length. unfold blen in *. lia. }
+  rewrite skipn_app, Ll. rewrite firstn_app, skipn_length, Ll.
+  replace (N.to_nat (e2 - s2) - (N.to_nat (e - s) - N.to_nat s2))%nat with O by lia.
+  replace (N.to_nat s2 - N.to_nat (e - s))%nat with O by lia.
+  cbn [skipn firstn]. rewrite app_nil_r. reflexivity.
+Qed.
+
+(* new_substr: the copy-to-heap path (F2) is characterised by [path]; with the fix it checks the limit *)
+Lemma new_substr_spec fx a n b s e : AOK a -> vnode (hp a) n -> denote (hp a) n = Some (Atom b) ->
+  match new_substr_gen fx a n s e with
+  | Err er => (er = TooManyAtoms /\ atom_count a = MAX_NUM_ATOMS) \/
+              (atom_count a < MAX_NUM_ATOMS /\
+               ((er = InvalidAllocArg 1 /\ blen b < s) \/ (er = InvalidAllocArg 2 /\ s <= blen b < e) \/
+                (er = InvalidAllocArg 3 /\ e < s /\ e <= blen b) \/
+                (er = OutOfMemory /\ fx = true /\ s <= e <= blen b /\ heap_limit a < heap_size a + (e - s))))
+  | Ok (a', m, path) =>
+      atom_count a < MAX_NUM_ATOMS /\ s <= e /\ e <= blen b /\
+      match path with
+      | SubSmallHeap =>
+          fx = true ->
+          ext (hp a) (hp a') /\ vnode (hp a') m /\ denote (hp a') m = Some (Atom (sub_bytes b s e)) /\
+          AOK a' /\ bump a a' 1 0 (e - s)
+      | _ => ext (hp a) (hp a') /\ vnode (hp a') m /\ denote (hp a') m = Some (Atom (sub_bytes b s e)) /\
+             AOK a' /\ bump a a' 1 0 0
+      end
+  end.
+Proof.
+  intros [Hw Hc] Hv Hd. destruct (counts_u32 a Hc) as (U1 & U2 & U3).
+  unfold new_substr_gen, check_atom_limit.
+  destruct (atoms_len a + ghost_atoms a =? MAX_NUM_ATOMS) eqn:E0.
+  { left. split; [reflexivity|]. unf. lia. }
+  assert (P0 : atom_count a < MAX_NUM_ATOMS) by (unf; lia).
+  cbn [bind]. destruct n as [i|i|v].
+  - apply denote_atom_or_pair in Hd. destruct Hd as (l & r & Hd). discriminate.
+  - destruct (denote_bytes _ _ _ Hd) as (s0 & e0 & b' & En & Sl & T).
+    apply (f_equal (fun t => match t with Atom x => x | _ => [] end)) in T. cbn in T. subst b'.
+    unfold get_atom. rewrite En. cbn [bind]. unfold buf_len. cbn [fst snd].
+    destruct (slice_some _ _ _ _ Sl) as (A & B & _). pose proof (slice_len _ _ _ _ Sl) as Lb.
+    replace (e0 <? s0) with false by lia. cbn [bind]. unfold bounds_check. rewrite <- Lb.
+    destruct (blen b <? s) eqn:B1. { right. split; [exact P0|]. left. split; [reflexivity|lia]. }
+    destruct (blen b <? e) eqn:B2. { right. split; [exact P0|]. right. left. split; [reflexivity|lia]. }
+    destruct (e <? s) eqn:B3. { right. split; [exact P0|]. right. right. left. split; [reflexivity|lia]. }
+    cbn [bind].
+    assert (L1 : nlen (atoms (hp a) ++ [(s0 + s, s0 + e)]) = atoms_len a + 1) by (rewrite nlen_app; reflexivity).
+    refine (conj P0 (conj _ (conj _ (conj (ext_push_atom _ _ _) (conj _ (conj _ (conj _ _))))))); try lia.
+    + cbn. rewrite L1. lia.
+    + unfold denote. cbn. unfold atoms_len. rewrite nth_N_app_end.
+      rewrite (slice_slice _ _ _ _ s e Sl) by lia. reflexivity.
+    + split; [apply WF_push_atom; [exact Hw|lia|lia]|]. unf. cbn. rewrite L1. unfold atoms_len. lia.
+    + unfold bump. unf. cbn. rewrite L1. unfold atoms_len. lia.
+  - cbn in Hv. rewrite denote_small in Hd by exact Hv. apply Some_inj in Hd.
+    apply (f_equal (fun t => match t with Atom x => x | _ => [] end)) in Hd. cbn in Hd.
+    assert (Lb : blen b = len_for_value v) by (rewrite <- Hd; apply small_bytes_blen).
+    unfold bounds_check. rewrite <- Lb.
+    destruct (blen b <? s) eqn:B1. { right. split; [exact P0|]. left. split; [reflexivity|lia]. }
+    destruct (blen b <? e) eqn:B2. { right. split; [exact P0|]. right. left. split; [reflexivity|lia]. }
+    destruct (e <? s) eqn:B3. { right. split; [exact P0|]. right. right. left. split; [reflexivity|lia]. }
+    cbn [bind]. rewrite small_bytes_ok by exact Hv. cbn [bind]. rewrite Hd.
+    rewrite (sub_bytes_slice b s e) by lia.
+    assert (Wb : wf_bytes b = true) by (rewrite <- Hd; apply be_bytes_wf).
+    assert (Ws : wf_bytes (sub_bytes b s e) = true).
+    { eapply slice_wf; [exact Wb|apply sub_bytes_slice; lia]. }
+    assert (Ls : blen (sub_bytes b s e) = e - s).
+    { eapply slice_len. apply sub_bytes_slice; lia. }
+    destruct (fits_in_small_atom (sub_bytes b s e)) as [nv|] eqn:F.
+    + destruct (fits_small_bytes _ _ Ws F) as (R1 & R2 & R3).
+      refine (conj P0 (conj _ (conj _ (conj (ext_refl _) (conj R1 (conj _ (conj _ _))))))); try lia.
+      * cbn [hp set_ghosts]. rewrite denote_small by exact R1. rewrite R3. reflexivity.
+      * split; [exact Hw|]. unf. cbn. lia.
+      * unfold bump. unf. cbn. lia.
+    + rewrite Ls.
+      destruct (fx && (heap_limit a <? u8_len a + ghost_heap a + (e - s))) eqn:FX.
+      { right. split; [exact P0|]. right. right. right.
+        apply andb_prop in FX. destruct FX as [F1 F2]. repeat split; try assumption; try lia. unf. lia. }
+      refine (conj P0 (conj _ (conj _ _))); try lia. intros ->. cbn [andb] in FX.
+      assert (Hle1 : u8_len a <= U32_MAX) by (unf; lia).
+      assert (Hle2 : u8_len a + (e - s) <= U32_MAX) by (unf; lia).
+      rewrite (u32_id _ Hle1), (u32_id _ Hle2).
+      assert (L1 : nlen (atoms (hp a) ++ [(u8_len a, u8_len a + (e - s))]) = atoms_len a + 1) by (rewrite nlen_app; reflexivity).
+      assert (L2 : blen (u8 (hp a) ++ sub_bytes b s e) = u8_len a + (e - s))
+        by (unfold u8_len, blen in *; rewrite app_length; lia).
+      assert (Hw' : WF (push_atom (push_u8 (hp a) (sub_bytes b s e)) (u8_len a) (u8_len a + (e - s)))).
+      { apply WF_push_atom; [apply WF_push_u8; assumption|lia|]. cbn. rewrite L2. lia. }
+      refine (conj _ (conj _ (conj _ (conj _ _)))).
+      * eapply ext_trans; [apply ext_push_u8|apply ext_push_atom].
+      * cbn. rewrite L1. lia.
+      * unfold denote. cbn. unfold atoms_len. rewrite nth_N_app_end.
+        unfold slice. rewrite L2. unfold u8_len.
+        replace ((blen (u8 (hp a)) <=? blen (u8 (hp a)) + (e - s)) && (blen (u8 (hp a)) + (e - s) <=? blen (u8 (hp a)) + (e - s))) with true by lia.
+        replace (N.to_nat (blen (u8 (hp a)) + (e - s) - blen (u8 (hp a)))) with (length (sub_bytes b s e)) by (unfold blen in *; lia).
+        replace (N.to_nat (blen (u8 (hp a)))) with (length (u8 (hp a))) by (unfold blen; lia).
+        rewrite skipn_app, skipn_all, Nat.sub_diag. cbn [skipn app]. rewrite firstn_all. reflexivity.
+      * split; [exact Hw'|]. unf. cbn. rewrite L1, L2. unfold atoms_len, u8_len. lia.
+      * unfold bump. unf. cbn. rewrite L1, L2. unfold atoms_len, u8_len. lia.
+Qed.
